@@ -1022,6 +1022,11 @@ func (s *scanner) ScanBytes(accept func(b byte) bool) error {
 		if err == io.EOF && !empty {
 			return nil
 		}
+		if err != nil && err != io.EOF {
+			// A latched read error leaves the (fully consumed) buffer in
+			// place; return it rather than spinning on the same bytes.
+			return err
+		}
 		if s.used == 0 {
 			if err == nil {
 				err = io.EOF
